@@ -31,7 +31,7 @@ def check(run, repo, tier):
   r6_lookup_index(run, w)
   r7_column_lifecycle(run, w)
   from ._extra import c13_reset_all_keys
-  c13_reset_all_keys(run, w, "C05-R6")
+  run.guard(c13_reset_all_keys, run, w, "C05-R6")
 
 
 def _invalidating(c, nm, fn):
